@@ -41,7 +41,7 @@ ASSUMPTIONS = [
 LEVEL_TEXT = ("generated-input search: round trip + differential decode against an independent reference codec for "
               "structured messages; totality/termination/re-encode stability on hostile and mutated byte strings")
 LEVEL_NOTE = "trusts lib/ref_dns.py, Python's idna/punycode codecs (for the precondition) and Hypothesis' search"
-QUICK_N, THOROUGH_N = 160_000, 6_000_000
+QUICK_N, THOROUGH_N = 100_000, 6_000_000
 BUDGET_S = (150, 5400)
 
 CASE_ALARM_S = 20
@@ -182,11 +182,12 @@ def chain_packet(n: int, end: str, rr: bool) -> bytes:
 _chain_n = st.one_of(st.integers(0, 40), st.integers(0, 40), st.integers(0, 40), st.integers(0, 1200))
 
 
-def strategy(ctx):
-    msg = G.message(allow_comp=False, odd=True)
+def strategy_msg(ctx):
+    return G.message(allow_comp=False, odd=True).map(lambda d: {"k": "msg", "d": d})
+
+
+def strategy_bytes(ctx):
     return st.one_of(
-        msg.map(lambda d: {"k": "msg", "d": d}),
-        msg.map(lambda d: {"k": "msg", "d": d}),
         packet.map(lambda b: {"k": "bytes", "b": b}),
         st.tuples(G.message(odd=False), st.lists(_mutation, min_size=0, max_size=4)).map(
             lambda t: {"k": "mut", "d": t[0], "m": t[1]}),
@@ -195,6 +196,10 @@ def strategy(ctx):
         st.tuples(_chain_n, st.sampled_from(["root", "label", "self", "back", "mid", "trunc"]), st.booleans()).map(
             lambda t: {"k": "chain", "n": t[0], "end": t[1], "rr": t[2]}),
     )
+
+
+def strategy(ctx):
+    return st.one_of(strategy_msg(ctx), strategy_bytes(ctx))
 
 
 # ---------------------------------------------------------------- oracle
@@ -486,7 +491,10 @@ def run(ctx):
                     ctx.cur_case = case
                     ctx.ev()
                     check_case(case, ctx)
-    hyp(ctx, strategy(ctx), check_case, ctx.n(QUICK_N, THOROUGH_N))
+    # two campaigns (Hypothesis' span-mutation phase favours list-shaped cases, which would starve the structured messages)
+    n = ctx.n(QUICK_N, THOROUGH_N)
+    hyp(ctx, strategy_msg(ctx), check_case, (n + 1) // 2)
+    hyp(ctx, strategy_bytes(ctx), check_case, max(1, n // 2))
     if ctx.thorough:
         scale = float(os.environ.get("VERIF_SCALE", "1"))
         _atheris(ctx, max(1000, int(3_000_000 * scale)))
